@@ -231,6 +231,11 @@ class Universe:
         os.makedirs(self.root2)
         with open(os.path.join(self.root2, "user.py"), "w", encoding="utf-8", newline="") as f:
             f.write("from core import compute, Shape\nfrom pkg.util import wrap\n\nu = compute(2)\nsh = Shape(1)\nw = wrap(sh)\n")
+        os.makedirs(os.path.join(self.root2, "pkg"))
+        for rel, text in (("pkg/__init__.py", ""), ("pkg/util.py", "def local_helper():\n    return 0\n"),
+                          ("app.py", "import user\n\nmain = user.u\n")):
+            with open(os.path.join(self.root2, *rel.split("/")), "w", encoding="utf-8", newline="") as f:
+                f.write(text)
         self.project2 = Project(self.root2, ropefolder=None, automatic_soa=False, python_path=[self.root])
 
     def snap(self, meta=True):
@@ -325,6 +330,15 @@ def build_request(u, st, task_handle=None):
             return None
         mr = multiproject.MultiProjectRefactoring(rename.Rename, [u.project2])
         return ("multi", mr(p, res, off).get_all_changes(st["new"]))
+    if k == "multi_move_global":
+        from rope.refactor import multiproject
+
+        off = _offset(u, st)
+        if off is None:
+            return None
+        mr = multiproject.MultiProjectRefactoring(move.create_move, [u.project2])
+        dest = _res(u, st["dest"]) if st.get("dest_is_resource") else st["dest"]
+        return ("multi", mr(p, res, off).get_all_changes(dest))
     if k == "rename_module":
         r = rename.Rename(p, res, None)
         if rs is not None:
@@ -527,12 +541,12 @@ class EffectsEngine(Engine):
         kinds = (["rename"] * 6 + ["rename_module"] * 2 + ["move_global"] * 2 + ["move_module", "move_method"] +
                  ["extract_method"] * 2 + ["extract_variable"] * 2 + ["inline"] * 2 + ["change_signature"] * 2 +
                  ["introduce_parameter", "introduce_factory", "encapsulate_field", "local_to_field", "method_object",
-                  "module_to_package", "organize", "organize", "restructure", "use_function", "generate", "multi_rename", "multi_rename"])
+                  "module_to_package", "organize", "organize", "restructure", "use_function", "generate", "multi_rename", "multi_rename", "multi_move_global"])
         k = rng.choice(kinds)
         pathpool = inproj * 8 + pyfiles + ["ext:extmod.py", "ext:extpkg/__init__.py", "ext:extpkg/tools.py", "notes.txt"]
         st = {"kind": k, "path": rng.choice(pathpool)}
         malformed = rng.random() < swarm["p_malformed"]
-        if k in ("rename", "multi_rename", "move_global", "move_method", "inline", "change_signature", "introduce_parameter",
+        if k in ("rename", "multi_rename", "multi_move_global", "move_global", "move_method", "inline", "change_signature", "introduce_parameter",
                  "introduce_factory", "encapsulate_field", "local_to_field", "method_object", "use_function", "generate"):
             # pick an identifier that occurs in the file
             try:
@@ -559,6 +573,11 @@ class EffectsEngine(Engine):
             if rng.random() < 0.3:
                 st["dest"] = rng.choice(inproj + ["ext:extmod.py"])
                 st["dest_is_resource"] = True
+        if k == "multi_move_global":
+            st["dest"] = rng.choice(["pkg/util.py", "app.py", "pkg/sibling.py"])
+            st["dest_is_resource"] = True
+            st["path"] = rng.choice(["core.py", "core.py", "pkg/sibling.py", "app.py"])
+            st["ident"] = rng.choice(["compute", "make_shape", "Shape", "double", "GLOBAL", "twice"])
         if k == "move_module":
             st["path"] = rng.choice(inproj + ["pkg"])
             st["dest"] = rng.choice(["pkg", "", "pkg", "", "ignored_dir", "ext:extpkg", "pkg/util.py"])
